@@ -318,6 +318,26 @@ func (fv *FV) typeAssert(st *State, v Term, target types.Type, pos token.Pos) (T
 				return Term{sx(un, v.S), tso}, Term{sx("=", sx(dt, v.S), fv.ss.StrConst("type:"+shortTypeName(target))), SBool}
 			}
 		}
+		if v.Sort.Kind == KOpaque && tso.Kind == KSum {
+			// opaque interface value asserted to a closed-sum interface: it succeeds exactly when the dynamic type is one
+			// of the implementations, and the result is that constructor applied to the unboxed value
+			dt := fv.ss.DynTypeFn(v.Sort)
+			r := fv.fresh("assert", tso)
+			var oks []Term
+			for i := range tso.Ctors {
+				c := &tso.Ctors[i]
+				if c.GoType == nil || c.Payload == nil || c.Acc == "" {
+					continue
+				}
+				_, un := fv.ss.BoxFn(c.Payload, v.Sort, c.GoType)
+				has := Term{sx("=", sx(dt, v.S), fv.ss.StrConst("type:"+shortTypeName(c.GoType))), SBool}
+				oks = append(oks, has)
+				st.assume(tImp(has, tEq(r, Term{sx(c.Name, sx(un, v.S)), tso})))
+			}
+			if len(oks) > 0 {
+				return r, tOr(oks...)
+			}
+		}
 		r := fv.fresh("assert", tso)
 		okc := fv.fresh("assertok", SBool)
 		fv.note("type assertion on opaque interface value abstracted (result and success unconstrained)")
